@@ -1288,6 +1288,18 @@ class SymArray:
         NPShim.copyto(_NPS[0], out, self, casting="unsafe")
         return out
 
+    def any(self):
+        r = False
+        for c in self.cells_list():
+            r = s_bool(c) if r is False else mkb(z3.Or(bexpr(r), bexpr(s_bool(c))))
+        return r
+
+    def all(self):
+        r = True
+        for c in self.cells_list():
+            r = s_bool(c) if r is True else mkb(z3.And(bexpr(r), bexpr(s_bool(c))))
+        return r
+
     def sort(self):
         vals = sort_network(self.cells_list())
         for p, v in zip(self._positions(), vals):
